@@ -174,7 +174,7 @@ class C27(Prop):
         nd = {'quick': 6, 'thorough': 100, 'search': 50}.get(tier, 6)
         for _ in range(nd):
             prog = c26.directed_program(rng)
-            rc = rng.randint(1, 10 ** 6) if rng.random() < 0.6 else 0
+            rc = rng.randint(1, 10 ** 6) if (rng.random() < 0.6 or 'assoc' in dumps(prog)) else 0
             if not c26.frontend_ok(prog, False, rc):
                 continue
             yield Case([A('deps'), False, prog, c26.directed_inputs(rng, prog), rc], stream='directed')
